@@ -450,7 +450,7 @@ def gen_targeted(rng):
     level's callback in the same turn; several signal deliveries pending when the registration is deleted / modified;
     timer handles used after fire / delete / slot reuse; a second poll_add of a descriptor followed by del / mod."""
     g = Gen(rng)
-    fam = rng.choice(["del-queued", "sig-storm", "stale-timer", "dup-fd", "self-del"])
+    fam = rng.choice(["del-queued", "sig-storm", "stale-timer", "dup-fd", "self-del", "fd-reuse"])
     L = g.lines
     if fam == "del-queued":
         # LOW / MED items become ready in turn 1 (cut-off HIGH); a HIGH job deletes some of them
@@ -516,6 +516,24 @@ def gen_targeted(rng):
         L.append("op " + t3)
         L.append("op " + rng.choice(["pd %d" % fd2, "pm 2 %d 5 %d" % (fd2, g.key("f")), "pd %d" % fd2]))
         L.append("run " + " | ".join(["0 0 r %d:1" % fd2] * 4))
+    elif fam == "fd-reuse":
+        # a descriptor closed without poll_del, its number added again, then deleted / modified by number
+        t1, k1 = g.op_poll_add(p=rng.choice([0, 1, 2]))
+        fd = g.fds[-1]
+        L += ["op " + t1]
+        if rng.random() < 0.5:
+            L.append("run 0 0 r %d:1 | 0 0 r %d:1 | 0 1" % (fd, fd))
+        L.append("op close %d" % fd)
+        t2, k2 = g.op_poll_add(p=rng.choice([0, 0, 1]), fd=fd)
+        L.append("op " + t2)
+        L.append("run 0 0 r %d:1 | 0 1" % fd)
+        L.append("op " + rng.choice(["pd %d" % fd, "pd %d" % fd, "pm 2 %d 5 %d" % (fd, g.key("f"))]))
+        L.append("run " + " | ".join(["0 0 r %d:5" % fd] * 4))
+        if rng.random() < 0.5:
+            L.append("op pd %d" % fd)
+            t3, k3 = g.op_poll_add(fd=fd)
+            L.append("op " + t3)
+            L.append("run " + " | ".join(["0 0 r %d:1" % fd] * 3))
     else:
         # callbacks deleting themselves / re-adding themselves
         tj, kj = g.op_job_add()
@@ -553,8 +571,9 @@ def monitor_c08(lines, case):
     signals: a callback runs only while its registration exists (not after signal_del returned 0 or after a
              non-zero return), and not more often than the signal was raised while registered;
     stop:    after qb_loop_stop from a callback the run returns without another epoll_wait.
-    Descriptors re-added while an earlier registration of the same number is still watched, and keys used for more
-    than one registration at a time, make the affected checks ambiguous: those are skipped, never guessed."""
+    Keys used for more than one registration at a time make the affected checks ambiguous: those are skipped, never
+    guessed.  Descriptor numbers closed and added again are NOT exempt: after poll_del(fd) returned 0 no callback for
+    that number may run until it is added again (fixes/C08-poll-add-live-fd)."""
     evs = parse_log(lines)
     behs = script_behs(case)
     # scripted check words that collide (or are 0) void the freshness hypothesis: handle checks are skipped then
@@ -704,7 +723,7 @@ def monitor_c08(lines, case):
                         t["amb"] = True              # several candidates: which one ran is not known
             elif kind == 2:
                 fd = e[3]
-                if fd not in amb_fd:
+                if True:      # strict also for re-added numbers: a second live entry for one number is the defect
                     r = fds.get(fd)
                     if r is None or not r["alive"]:
                         return "event %d: descriptor callback for fd %d ran although it is not watched (never added, deleted, or removed by a negative return)" % (i, fd)
